@@ -84,6 +84,8 @@ def cases(tier, seed=0):
   cs += _ea.energy_override_cases('DL_POLY_EAM_fs', tier)
   cs += _ea.long_label_cases('DL_POLY_EAM', tier)
   cs += _ea.long_label_cases('DL_POLY_EAM_fs', tier)
+  cs += _ea.pair_iterable_cases('DL_POLY_EAM', tier)
+  cs += _ea.pair_iterable_cases('DL_POLY_EAM_fs', tier)
   return cs
 
 
